@@ -61,6 +61,18 @@ class Boom(Exception):
     pass
 
 
+class BodyError(Exception):
+    pass
+
+
+def make_exc(kind, what):
+    if kind == "SystemExit":
+        return SystemExit(f"Boom {what}")
+    if kind == "KeyboardInterrupt":
+        return KeyboardInterrupt(f"Boom {what}")
+    return Boom(what)
+
+
 def f_of(x):
     return (x[0], x[1], "r")
 
@@ -137,7 +149,9 @@ def build_plan(choice: Choice, tier: str, family: str):
     p["until_ready"] = 0
     p["begin_raises"] = None
     p["functor_raises"] = None
-    p["begin_pause"] = d(3, "begin.pause") == 2
+    p["begin_pause"] = [0, 0, 1, 2][d(4, "begin.pause")]     # 0 none, 1 yield, 2 defer (a slow begin())
+    p["body_raises"] = None
+    p["raise_kind"] = "Boom"
     p["end_pause"] = d(4, "end.pause")      # 0,1 none; 2 yield; 3 defer (a slow end())
     p["plain_quota"] = None
     if family == "lifecycle":
@@ -158,6 +172,11 @@ def build_plan(choice: Choice, tier: str, family: str):
             p["until_ready"] = d(4, "until_ready")  # 0 never, 1 at start, 2 between calls, 3 both
         else:
             p["plain_quota"] = None     # a dead worker would take its share of the capacity with it
+            # what is raised: an ordinary exception, or a BaseException that is not an Exception
+            p["raise_kind"] = ["Boom", "Boom", "SystemExit", "KeyboardInterrupt"][d(4, "fault.raise_kind")]
+        if p["begin_raises"] is None and p["functor_raises"] is None and d(5, "body.raises") == 4:
+            # the with-body of the pool raises: before any call (0) or after the last one (1)
+            p["body_raises"] = d(2, "body.raises.when")
     return p
 
 
@@ -186,12 +205,15 @@ def scenario(k: Kernel, plan, obs):
 
         def begin(self):
             rec("begin", self.wid)
-            if plan["begin_pause"]:
+            if plan["begin_pause"] == 1:
                 k.switch("begin.pause")
+            elif plan["begin_pause"] == 2:
+                k.fault("slow-begin")
+                k.defer("begin.defer")
             if begin_raises is not None and self.wid == begin_raises:
                 k.fault("begin-raises")
                 rec("begin!", self.wid)
-                raise Boom("begin")
+                raise make_exc(plan["raise_kind"], "begin")
             rec("begin_done", self.wid)
 
         def __call__(self, x):
@@ -204,7 +226,7 @@ def scenario(k: Kernel, plan, obs):
             if raises is not None and tuple(x) == raises:
                 k.fault("functor-raises")
                 rec("item!", x)
-                raise Boom("functor")
+                raise make_exc(plan["raise_kind"], "functor")
             return f_of(x)
 
         def end(self):
@@ -261,8 +283,22 @@ def scenario(k: Kernel, plan, obs):
         return out
 
     obs["phase"] = "enter"
+    try:
+        run_body(k, plan, obs, pool, rec, data_iter, leftovers)
+    except BodyError:
+        obs["body_error_propagated"] = True
+    obs["phase"] = "exited"
+    obs["unfinished_at_exit"] = [t.name for t in k.unfinished() if t.kind == "process"]
+    obs["unfinished_threads_at_exit"] = [t.name for t in k.unfinished() if t.kind == "thread"]
+
+
+def run_body(k, plan, obs, pool, rec, data_iter, leftovers):
     with pool:
         obs["phase"] = "inside"
+        if plan.get("body_raises") == 0:
+            k.fault("with-body-raises")
+            obs["phase"] = "exiting"
+            raise BodyError("body raised before any call")
         if plan["until_ready"] in (1, 3):
             pool.until_all_ready()
             note_ready(k, pool, rec)
@@ -288,9 +324,9 @@ def scenario(k: Kernel, plan, obs):
                 pool.until_all_ready()
                 note_ready(k, pool, rec)
         obs["phase"] = "exiting"
-    obs["phase"] = "exited"
-    obs["unfinished_at_exit"] = [t.name for t in k.unfinished() if t.kind == "process"]
-    obs["unfinished_threads_at_exit"] = [t.name for t in k.unfinished() if t.kind == "thread"]
+        if plan.get("body_raises") == 1:
+            k.fault("with-body-raises")
+            raise BodyError("body raised after the last call")
 
 
 class RangeLike:
@@ -391,6 +427,39 @@ def classify_wrong(c, got, exp, api):
         shape = "reordered"
     return {"class": "wrong-result", "site": shape,
             "message": f"call {c} ({api}) returned {len(got)} values {got[:6]}..., expected {len(exp)} {exp[:6]}..."}
+
+
+def withheld_at_stall(plan, obs):
+    """C01 at a stall: a result chunk that the consumer has already taken from the results queue, and whose
+    predecessors it has taken as well (ordered) - so nothing stands in the way of yielding it - but that was never
+    yielded, is a LOST result (the hang is only its symptom).  Returns violations."""
+    out = []
+    c = len(obs["call_state"]) - 1
+    if c < 0 or obs["call_state"][c] != "running":
+        return out
+    call = plan["calls"][c]
+    got = {}
+    for m in obs["ctx"].managers:
+        for q in m.objects:
+            if isinstance(q, SimManagerQueue):
+                for step, name, item in q.get_log:
+                    if name == "main" and is_result_payload(item) and item[1][0][0] == c:
+                        got[item[0]] = len(item[1])
+    if not got:
+        return out
+    if call["ordered"]:
+        m_ = 0
+        while m_ in got:
+            m_ += 1
+        deliverable = sum(got[j] for j in range(m_))
+    else:
+        deliverable = sum(got.values())
+    yielded = len(obs["outs"][c])
+    if yielded < deliverable:
+        out.append({"class": "wrong-result", "site": "taken-from-queue-but-never-yielded",
+                    "message": f"call {c}: the consumer took result chunks {sorted(got)} from the results queue, "
+                               f"{deliverable} values were deliverable, only {yielded} were yielded before the call hung"})
+    return out
 
 
 def stall_site(info):
@@ -533,6 +602,8 @@ def evaluate(prop, plan, obs, k: Kernel, kind, info):
                         "message": f"phase={obs['phase']} calls_done={obs['call_state']} blocked={info['blocked']}"})
     if prop == "C01":
         viol = results_v + crash_v + [v for v in thread_v]
+        if stalled:
+            viol += withheld_at_stall(plan, obs)
         if not viol and not any(s == "done" for s in obs["call_state"]):
             skip = "call-not-completed (stall is C02's verdict)"
     elif prop == "C02":
